@@ -12,6 +12,7 @@ import (
 	"strings"
 
 	"golang.org/x/tools/go/ssa"
+	"golang.org/x/tools/go/ssa/ssautil"
 )
 
 // ---- reference tables -------------------------------------------------------
@@ -596,5 +597,53 @@ func (c *Ctx) walkCallbacks() map[*ssa.Function]*ssa.Function {
 			}
 		}
 	}
+	return out
+}
+
+var funcArgCache = map[*Ctx]map[*ssa.Parameter][]*ssa.Function{}
+
+// funcArgTargets: for every function-typed parameter of a module function (instances of generic functions included),
+// the module functions that some call site hands in for it.
+func (c *Ctx) funcArgTargets() map[*ssa.Parameter][]*ssa.Function {
+	if m, ok := funcArgCache[c]; ok {
+		return m
+	}
+	out := map[*ssa.Parameter][]*ssa.Function{}
+	for fn := range ssautil.AllFunctions(c.Prog) {
+		if fn.Blocks == nil || !c.InModule(fn) {
+			continue
+		}
+		for _, ci := range callsIn(fn) {
+			g := ci.Common().StaticCallee()
+			if g == nil || !c.InModule(g) || g.Blocks == nil {
+				continue
+			}
+			for i, a := range ci.Common().Args {
+				if i >= len(g.Params) {
+					continue
+				}
+				var f *ssa.Function
+				switch fv := unwrapConv(a).(type) {
+				case *ssa.Function:
+					f = fv
+				case *ssa.MakeClosure:
+					f, _ = fv.Fn.(*ssa.Function)
+				}
+				if f == nil || !c.InModule(f) {
+					continue
+				}
+				dup := false
+				for _, x := range out[g.Params[i]] {
+					if x == f {
+						dup = true
+					}
+				}
+				if !dup {
+					out[g.Params[i]] = append(out[g.Params[i]], f)
+				}
+			}
+		}
+	}
+	funcArgCache[c] = out
 	return out
 }
